@@ -885,6 +885,115 @@ class errstate:
         return False
 
 
+def _ufunc2(f):
+    def g(a, b, *extra, **kw):
+        if extra or kw:
+            raise Unsupported("numpy binary function with out=/where=/dtype= on a symbolic array")
+        a = asarray(a) if not isi(a, nd) else a
+        return a._ew(b, f)
+    return g
+
+
+def _ufunc1(f):
+    def g(a, *extra, **kw):
+        if extra or kw:
+            raise Unsupported("numpy unary function with extra arguments on a symbolic array")
+        if isi(a, nd):
+            return nd._wrap(_map(f, a._d), a)
+        if isinstance(a, (list, tuple)):
+            return nd(_map(f, _todata(a)))
+        return f(a)
+    return g
+
+
+def _sabs(x):
+    return s_where(x < 0, -x, x)
+
+
+def _ssign(x):
+    return s_where(x > 0, 1, s_where(x < 0, -1, 0))
+
+
+def where(c, *ab):
+    if len(ab) != 2:
+        raise Unsupported("numpy.where with one argument (index arrays) on a symbolic array")
+    a, b = ab
+    c = asarray(c) if not isi(c, nd) else c
+    sh = _bshape(_bshape(c.shape, _shape(_todata(a))), _shape(_todata(b)))
+    ad, bd = _todata(a), _todata(b)
+    sa, sb, sc = _shape(ad), _shape(bd), c.shape
+    def gen():
+        for idx in itertools.product(*[range(n) for n in sh]):
+            yield s_where(_get(c._d, sc, idx, sh), _get(ad, sa, idx, sh), _get(bd, sb, idx, sh))
+    return nd._wrap(_build(sh, gen()), _like(a) or _like(b))
+
+
+def concatenate(arrs, axis=0):
+    arrs = [asarray(x) for x in arrs]
+    out = arrs[0]
+    for x in arrs[1:]:
+        out = append(out, x, axis=axis)
+    return out
+
+
+def hstack(arrs):
+    arrs = [asarray(x) for x in arrs]
+    return concatenate(arrs, axis=0 if len(arrs[0].shape) == 1 else 1)
+
+
+def vstack(arrs):
+    arrs = [asarray(x) for x in arrs]
+    arrs = [x if len(x.shape) > 1 else nd._wrap([list(x._d)], x) for x in arrs]
+    return concatenate(arrs, axis=0)
+
+
+def stack(arrs, axis=0):
+    arrs = [asarray(x) for x in arrs]
+    if axis != 0:
+        raise Unsupported("numpy.stack along an axis other than 0")
+    return nd._wrap([x._d for x in arrs], arrs[0])
+
+
+def zeros_like(x, dtype=None):
+    x = asarray(x)
+    return nd._wrap(_map(lambda e: 0, x._d), x, dtype=dtype or x.dtype)
+
+
+def ones_like(x, dtype=None):
+    x = asarray(x)
+    return nd._wrap(_map(lambda e: 1, x._d), x, dtype=dtype or x.dtype)
+
+
+def full(shape, value, dtype=None):
+    shape = (shape,) if isinstance(shape, int) else tuple(shape)
+    return nd(_build(shape, itertools.repeat(value)), dtype=dtype)
+
+
+def count_nonzero(x, axis=None):
+    x = asarray(x)
+    return nd._wrap(_map(lambda e: s_where(_seq(e, 0), 0, 1) if not isinstance(e, bool) else int(e), x._d), x).sum(axis=axis)
+
+
+def _refuse(name, f):
+    """an unmodelled numpy function: fine on concrete data, refused on a symbolic array (real numpy would coerce the
+    array to dtype=object and drive the computation through Python comparisons, i.e. an uncontrolled path explosion)"""
+    import functools
+
+    def has_sym(v, depth=0):
+        if isi(v, nd):
+            return True
+        if depth < 3 and isinstance(v, (list, tuple)):
+            return any(has_sym(e, depth + 1) for e in v)
+        return is_sym(v) or type(v) in (SReal, MaybeNaN)
+
+    @functools.wraps(f)
+    def g(*a, **k):
+        if any(has_sym(v) for v in a) or any(has_sym(v) for v in k.values()):
+            raise Unsupported(f"numpy.{name} on a symbolic array is not modelled")
+        return f(*a, **k)
+    return g
+
+
 def make_numpy_namespace(real_numpy):
     """module object the array module of the repository sees as `numpy`"""
     import types
@@ -894,5 +1003,22 @@ def make_numpy_namespace(real_numpy):
         "max": amax, "min": amin, "prod": prod, "sum": sum_, "matmul": matmul, "dot": matmul, "delete": delete,
         "append": append, "argwhere": argwhere, "clip": clip, "errstate": errstate, "argmax": argmax, "arange": arange,
         "swapaxes": swapaxes, "flipud": flipud,
+        "minimum": _ufunc2(lambda a, b: s_where(b < a, b, a)), "maximum": _ufunc2(lambda a, b: s_where(b > a, b, a)),
+        "add": _ufunc2(lambda a, b: a + b), "subtract": _ufunc2(lambda a, b: a - b), "multiply": _ufunc2(_smul),
+        "divide": _ufunc2(sdiv), "true_divide": _ufunc2(sdiv),
+        "less": _ufunc2(lambda a, b: a < b), "less_equal": _ufunc2(lambda a, b: a <= b),
+        "greater": _ufunc2(lambda a, b: a > b), "greater_equal": _ufunc2(lambda a, b: a >= b),
+        "equal": _ufunc2(_seq), "not_equal": _ufunc2(lambda a, b: snot(_seq(a, b))),
+        "logical_and": _ufunc2(_sand), "logical_or": _ufunc2(_sor), "logical_not": _ufunc1(snot),
+        "abs": _ufunc1(_sabs), "absolute": _ufunc1(_sabs), "sign": _ufunc1(_ssign), "negative": _ufunc1(lambda x: -x),
+        "where": where, "concatenate": concatenate, "hstack": hstack, "vstack": vstack, "stack": stack,
+        "zeros_like": zeros_like, "ones_like": ones_like, "full": full, "count_nonzero": count_nonzero,
+        "any": _red("any"), "all": _red("all"), "amax": amax, "amin": amin,
     })
+    for name in dir(real_numpy):
+        if name.startswith("_") or name in ns.__dict__:
+            continue
+        f = getattr(real_numpy, name)
+        if callable(f) and not isinstance(f, type):
+            ns.__dict__[name] = _refuse(name, f)
     return ns
